@@ -171,8 +171,18 @@ def cross_check(pkg, rng, rounds=6):
     return cases, mism, bad[:5]
 
 
+def _clear_caches(P):
+    """functools caches of the repository are cleared so that both sides start from the same call history."""
+    for modname in ("bounds",):
+        m = P.mod(modname)
+        for obj in vars(m).values():
+            if hasattr(obj, "cache_clear"):
+                obj.cache_clear()
+
+
 def _collect(tables, pkg, native, n, comp, v, K):
     for P in (pkg, native):
+        _clear_caches(P)
         game_m, bounds, co = P.mod("game"), P.mod("bounds"), P.mod("coalitions")
         g = game_m.IncompleteCooperativeGame(n, bounds.BOUNDS[comp])
         g.set_known_values([v[c] for c in K], [co.Coalition(c) for c in K])
